@@ -102,6 +102,11 @@ func checkReuse(c Case) error {
 	if !bytes.Equal(got, want) {
 		return harness.Violatef("c17/encoder-state-leak", "Encoder reused after history A gives different bytes for B:\n reused %x\n fresh  %x", got, want)
 	}
+	// ... nor does another, fresh Encoder see anything of what the used one went through
+	var later encode.Encoder
+	if lb, err := encodeB(&later, c); err != nil || !bytes.Equal(lb, want) {
+		return harness.Violatef("c17/encoder-state-leak", "a fresh Encoder used after the reused one gives different bytes for B (%v):\n later %x\n fresh %x", err, lb, want)
+	}
 	again, err := encodeB(&used, c)
 	if err != nil || !bytes.Equal(again, want) {
 		return harness.Violatef("c17/encoder-nondeterministic", "encoding B a second time on the same Encoder gives different bytes (%v)", err)
@@ -430,7 +435,17 @@ func TestReuse(t *testing.T) {
 			c.AOps = append(c.AOps, ops.OpReset(vb, ivg.DefaultPalette), ops.OpStartPath(0, 1, 1), ops.OpDraw(ops.AbsLineTo, 3, 4))
 			labels = append(labels, "A-resets-to-a-shifted-viewbox")
 		}
-		c.Rect = [4]int{rapid.IntRange(0, 5).Draw(t, "rx"), rapid.IntRange(0, 5).Draw(t, "ry"), rapid.SampledFrom([]int{16, 48, 64, 96, 200}).Draw(t, "rw"), rapid.SampledFrom([]int{16, 48, 64, 96, 300}).Draw(t, "rh")}
+		if rapid.IntRange(0, 4).Draw(t, "abmeta") == 0 {
+			// A once held exactly B's metadata (after something larger), then went on with other metadata
+			pre := append([]ops.Op{}, c.AOps...)
+			c.AOps = append(pre, ops.OpReset(c.bvb(), [64]color.RGBA(c.BPalette)), ops.OpStartPath(0, 2, 2), ops.OpDraw(ops.AbsLineTo, 5, 6), ops.OpDraw(ops.ClosePathEndPath),
+				ops.OpReset(ivg.DefaultViewBox, ivg.DefaultPalette), ops.OpStartPath(0, 1, 1), ops.OpDraw(ops.AbsLineTo, 3, 4), ops.OpDraw(ops.RelLineTo, 1, 1))
+			labels = append(labels, "A-was-reset-to-exactly-B's-metadata-earlier")
+		}
+		c.Rect = [4]int{rapid.IntRange(0, 5).Draw(t, "rx"), rapid.IntRange(0, 5).Draw(t, "ry"), rapid.SampledFrom([]int{1, 2, 16, 48, 64, 96, 200}).Draw(t, "rw"), rapid.SampledFrom([]int{1, 1, 2, 3, 16, 48, 64, 96, 300}).Draw(t, "rh")}
+		if c.Rect[2] == 1 || c.Rect[3] == 1 {
+			labels = append(labels, "target-one-pixel-wide-or-high")
+		}
 		switch rapid.IntRange(0, 5).Draw(t, "arect") {
 		case 0:
 			c.ARect = &[4]int{c.Rect[0], c.Rect[1], rapid.SampledFrom([]int{0, c.Rect[2]}).Draw(t, "aw"), 0}
